@@ -1,3 +1,114 @@
-// unit jumbf_io: harnesses for sdk/src/jumbf_io.rs (included by the cfg(kani) hook at the end of that file)
+// unit jumbf_io: sdk/src/jumbf_io.rs (included by the cfg(kani) hook at the end of that file)
+// C11: the format used for reading is decided by the bytes, not by a wrong hint
+// C35 (narrow): the sniffing result does not depend on the piece sizes a stream returns
 #[allow(unused_imports)]
 use super::*;
+
+// container_from_format depends on a lazy_static HashMap of handler prototypes (intractable in CBMC): replaced by an
+// arbitrary-but-fixed function of the hint, chosen once per harness run.
+static mut HINTED: Option<&'static str> = None;
+fn stub_container_from_format(_format: &str) -> Option<&'static str> {
+    unsafe { HINTED }
+}
+
+const IDS: [&str; 9] = ["jpg", "png", "gif", "tif", "jxl", "avi", "avif", "flac", "mp3"];
+
+// complete: 20 symbolic bytes, symbolic length 0..=20, every container class for the hint (or none)
+#[kani::proof]
+#[kani::stub(container_from_format, stub_container_from_format)]
+#[kani::unwind(19)]
+fn c11_hint_independent() {
+    let data: [u8; 20] = kani::any();
+    let len: usize = kani::any();
+    kani::assume(len <= 20);
+    let mut cur = Cursor::new(&data[..len]);
+    let detected = container_from_stream(&mut cur);
+    assert!(cur.position() == 0, "stream rewound after sniffing");
+    let hsel: usize = kani::any();
+    kani::assume(hsel <= IDS.len());
+    unsafe {
+        HINTED = if hsel == IDS.len() { None } else { Some(IDS[hsel]) };
+    }
+    let out = format_from_stream("zz", &mut cur);
+    match detected {
+        Some(d) => {
+            // the bytes decide: the result maps to the detected container whatever the hint says
+            let hinted = unsafe { HINTED };
+            if hinted == Some(d) {
+                assert!(out == "zz", "a hint of the detected container family is kept");
+            } else {
+                assert!(out == d, "a wrong or unknown hint is overridden by the detected container");
+            }
+        }
+        None => assert!(out == "zz", "undetectable bytes: the hint is used as is"),
+    }
+    kani::cover!(detected == Some("png"), "png detectable");
+    kani::cover!(detected == Some("flac"), "flac detectable");
+    kani::cover!(detected.is_none(), "undetectable prefix exists");
+}
+
+// ---- C35: a stream that returns data in short pieces: the first SHORT reads return an arbitrary number (>= 1) of the
+// bytes asked for, later reads return everything asked for
+struct Pieces<'a> {
+    data: &'a [u8],
+    pos: usize,
+    reads: usize,
+    short: usize,
+}
+impl<'a> Read for Pieces<'a> {
+    fn read(&mut self, buf: &mut [u8]) -> std::io::Result<usize> {
+        let left = self.data.len() - self.pos;
+        if left == 0 || buf.is_empty() {
+            return Ok(0);
+        }
+        let max = if buf.len() < left { buf.len() } else { left };
+        let n: usize = if self.reads < self.short { kani::any() } else { max };
+        kani::assume(n >= 1 && n <= max);
+        self.reads += 1;
+        buf[..n].copy_from_slice(&self.data[self.pos..self.pos + n]);
+        self.pos += n;
+        Ok(n)
+    }
+}
+impl<'a> Seek for Pieces<'a> {
+    fn seek(&mut self, p: std::io::SeekFrom) -> std::io::Result<u64> {
+        match p {
+            std::io::SeekFrom::Start(s) => {
+                self.pos = if (s as usize) < self.data.len() { s as usize } else { self.data.len() };
+            }
+            _ => {
+                kani::assume(false);
+            }
+        }
+        Ok(self.pos as u64)
+    }
+}
+
+// bounded in the stream behaviour only (<= `short` short reads, each of arbitrary size): every 16-byte prefix and
+// length; the result is compared with a full-read cursor over the same bytes
+fn sniff_independent(short: usize) {
+    let data: [u8; 16] = kani::any();
+    let len: usize = kani::any();
+    kani::assume(len <= 16);
+    // the ID3 branch (extra seek + read_exact) is outside this harness
+    kani::assume(!(data[0] == b'I' && data[1] == b'D' && data[2] == b'3'));
+    let mut whole = Cursor::new(&data[..len]);
+    let mut pieces = Pieces { data: &data[..len], pos: 0, reads: 0, short };
+    let a = container_from_stream(&mut whole);
+    let b = container_from_stream(&mut pieces);
+    kani::cover!(a == Some("png"), "png prefix reachable");
+    kani::cover!(a.is_none(), "undetectable prefix reachable");
+    assert!(a == b, "sniffing result independent of the piece sizes the stream returns");
+}
+
+#[kani::proof]
+#[kani::unwind(19)]
+fn c35_sniff_independent_2_short_reads() {
+    sniff_independent(2);
+}
+
+#[kani::proof]
+#[kani::unwind(19)]
+fn c35_sniff_independent_3_short_reads() {
+    sniff_independent(3);
+}
